@@ -689,8 +689,6 @@ def scenarios():
 def gen_inputs(tier, rng):
     descs = []
     for scn in scenarios():
-        if os.environ.get("C11_ONLY") and scn["op"] not in os.environ["C11_ONLY"].split(","):
-            continue          # debugging aid only
         d = {"scn": scn, "probe": "all"}
         if tier == "quick":
             d["pick"] = [rng.randrange(10 ** 6) for _ in range(14)]
